@@ -14,8 +14,9 @@ open IrVerif.Sort
 #print axioms C12_cycle_lifted
 #print axioms C12_cycle_iff_lifted
 #print axioms C12_cycle_no_change
-#print axioms C12_shared_raises
+#print axioms C12_order_independent
+#print axioms C12_pass_atomic
+#print axioms C12_pass_result
 #print axioms C12_fixpoint_graph
 #print axioms C12_fixpoint
 #print axioms C12_deterministic
-#print axioms C12_stateless
